@@ -13,6 +13,8 @@
 #include <bspline/Core.h>
 
 #include <cstdint>
+#include <cstdio>
+#include <memory>
 #include <functional>
 #include <map>
 #include <nlohmann/json.hpp>
@@ -79,7 +81,11 @@ struct Codec<F, std::enable_if_t<std::is_floating_point_v<F>>> {
   }
   // floating results are not sent to TLC; they are judged by the harness
   // against the exact value and magnitude the specification supplied
-  static json enc(const F &v) { return static_cast<long double>(v); }
+  static json enc(const F &v) {
+    char buf[64];
+    std::snprintf(buf, sizeof buf, "%La", static_cast<long double>(v));  // bit-exact
+    return std::string(buf);
+  }
 };
 
 template <typename T>
@@ -166,6 +172,58 @@ std::vector<std::array<T, O + 1>> decCoeffs(const json &c) {
 template <typename T, size_t O>
 Spline<T, O> mkSpline(const json &j, const Grid<T> &g) {
   return Spline<T, O>(mkSupport<T>(j, g), decCoeffs<T, O>(j.at("c")));
+}
+
+
+// ---------------------------------------------------------------- shared operands (threaded mode, C18)
+// In threaded mode the operand objects of all cases are built once by the main
+// thread and then only read: every handler obtains its operands as pointers to
+// these shared const objects, so several threads evaluate, copy, combine,
+// transform and integrate the SAME grid/spline objects at the same time.
+// mode 0: off (every case constructs its own operands)   1: fill   2: frozen
+struct OperandCache {
+  int mode = 0;
+  std::map<std::string, std::shared_ptr<const void>> objs;
+  std::vector<std::function<std::pair<long, long>()>> gridAudits;  // (use_count, expected) per cached grid
+  std::map<const void *, long> refs;  // grid storage -> number of cached objects referring to it
+};
+inline OperandCache &opCache() {
+  static OperandCache c;
+  return c;
+}
+template <typename X, typename Make>
+std::shared_ptr<const X> cached(const std::string &key, Make &&make) {
+  OperandCache &c = opCache();
+  if (c.mode == 0) return std::shared_ptr<const X>(make());
+  auto it = c.objs.find(key);
+  if (it != c.objs.end()) return std::static_pointer_cast<const X>(it->second);
+  if (c.mode == 2) throw std::runtime_error("harness: operand not in the frozen cache");
+  std::shared_ptr<const X> p(make());
+  c.objs[key] = p;
+  return p;
+}
+template <typename T>
+std::shared_ptr<const Grid<T>> opGrid(const json &pts) {
+  return cached<Grid<T>>(std::string("G") + Codec<T>::name + pts.dump(), [&] {
+    auto *g = new Grid<T>(decVec<T>(pts));
+    if (opCache().mode == 1) {
+      opCache().refs[g->getData().get()] += 1;
+      opCache().gridAudits.push_back([g] {
+        const void *blk = g->getData().get();
+        const long uc = static_cast<long>(g->getData().use_count()) - 1;  // minus the temporary getData() returns
+        return std::make_pair(uc, opCache().refs[blk]);
+      });
+    }
+    return g;
+  });
+}
+template <typename T, size_t O>
+std::shared_ptr<const Spline<T, O>> opSpline(const json &j, const Grid<T> &g) {
+  return cached<Spline<T, O>>(std::string("S") + Codec<T>::name + std::to_string(O) + j.dump(), [&] {
+    auto *s = new Spline<T, O>(mkSpline<T, O>(j, g));
+    if (opCache().mode == 1) opCache().refs[s->getSupport().getGrid().getData().get()] += 1;
+    return s;
+  });
 }
 
 // ---------------------------------------------------------------- guarded calls
